@@ -497,7 +497,7 @@ async fn check_filter(ds: &Dataset, t: &TableDef, fl: &F2, knobs: &[Knobs], ta: 
                         && fl.model.columns().contains(&t.index_col.to_string())
                         && extra.iter().all(|r| row_get(&names, r, t.index_col).is_null());
                     let key = if idx_neg {
-                        "knob/use_scalar_index/negation-over-indexed-nullable-column/extra-rows-all-null-in-column".to_string()
+                        "negation-over-indexed-nullable-column/index-returns-null-rows".to_string()
                     } else {
                         format!("knob/{kname}/{}/{fcols}/{shape}/rows-differ", t.name)
                     };
@@ -533,9 +533,9 @@ async fn check_filter(ds: &Dataset, t: &TableDef, fl: &F2, knobs: &[Knobs], ta: 
                 && fl.model.columns().contains(&t.index_col.to_string())
                 && extra.iter().all(|r| row_get(&names, r, t.index_col).is_null());
             let key = if idx_neg {
-                "model/negation-over-indexed-nullable-column/returns-null-predicate-rows".to_string()
+                "negation-over-indexed-nullable-column/index-returns-null-rows".to_string()
             } else if fractional_ts_literal(&fl.model) {
-                "model/timestamp-second-column/literal-with-sub-second-part-truncated".to_string()
+                "timestamp-literal-coerced-to-coarser-unit-by-truncation".to_string()
             } else {
                 format!("model/{}/{fcols}/{shape}/{kind}", t.name)
             };
@@ -692,7 +692,8 @@ fn check_b(t: &TableDef, c: &CaseB, got: &Result<Vec<Row>, String>, ta: &mut Tal
     let full: Vec<Row> = matches.iter().map(|(r, id)| project_model(t, r, *id, c)).collect();
     let fail = |ta: &mut Tally, kind: &str, detail: String| {
         ta.cov.outcome("b-differs");
-        ta.viol.push(Violation::new("query-model", &format!("query/{shape}/{kind}"), format!("{desc}: {detail}"), case.clone()));
+        let key = if c.limit == Some(0) && kind == "row-count" { "limit-zero-not-honoured".to_string() } else { format!("query/{shape}/{kind}") };
+        ta.viol.push(Violation::new("query-model", &key, format!("{desc}: {detail}"), case.clone()));
     };
     if got.len() != want_n {
         fail(ta, "row-count", format!("returned {} rows, expected {want_n} of the {m} matches: {}", got.len(), show(got)));
@@ -997,7 +998,7 @@ fn coerce_seam(ta: &mut Tally) {
                         // same instant: v / per_sec(su) == g / per_sec(du)  <=>  v * per_sec(du) == g * per_sec(su)
                         let same = tsval(&g).map(|gv| (v as i128) * per_sec(du) == (gv as i128) * per_sec(su)).unwrap_or(false);
                         if !same {
-                            push(ta, format!("coerce/timestamp/{}/different-instant", if per_sec(du) < per_sec(su) { "to-coarser-unit" } else { "to-finer-unit" }), format!("safe_coerce_scalar({sv:?}, {dst}) = {g:?}: not the same instant"), case);
+                            push(ta, if per_sec(du) < per_sec(su) { "timestamp-literal-coerced-to-coarser-unit-by-truncation".to_string() } else { "coerce/timestamp/to-finer-unit/different-instant".to_string() }, format!("safe_coerce_scalar({sv:?}, {dst}) = {g:?}: not the same instant"), case);
                         }
                     }
                 }
@@ -1038,7 +1039,7 @@ fn replay(art: &Value) -> Outcome {
             match r {
                 Ok(Ok(got)) => check_b(&t, &c, &got, &mut ta),
                 Ok(Err(e)) => vcore::machinery_error(&e),
-                Err(p) => ta.viol.push(Violation::new("panic", &format!("query/{}/panic/{}", query_shape(&c), err_shape(&p)), p, case.clone())),
+                Err(p) => ta.viol.push(Violation::new("panic", &if c.limit == Some(0) { "limit-zero-not-honoured".to_string() } else { format!("query/{}/panic/{}", query_shape(&c), err_shape(&p)) }, p, case.clone())),
             }
         }
         _ => vcore::machinery_error("unknown C16 case kind"),
@@ -1131,7 +1132,10 @@ pub fn run(ctx: &Ctx) -> Outcome {
                                     }
                                 }
                                 Ok(got) => check_b(&t, c, &got, &mut ta),
-                                Err(p) => ta.viol.push(Violation::new("panic", &format!("query/{}/panic/{}", query_shape(c), err_shape(&p)), format!("{tn}: query {} panics: {p}", query_shape(c)), serde_json::to_value(c).unwrap())),
+                                Err(p) => {
+                                    let key = if c.limit == Some(0) { "limit-zero-not-honoured".to_string() } else { format!("query/{}/panic/{}", query_shape(c), err_shape(&p)) };
+                                    ta.viol.push(Violation::new("panic", &key, format!("{tn}: query {} panics: {p}", query_shape(c)), serde_json::to_value(c).unwrap()))
+                                }
                             }
                         }
                     }
